@@ -89,6 +89,7 @@ func main() {
 	nTwo := flag.Int("tworun", 200, "two-run cases (mixed options)")
 	nExp := flag.Int("explicit", 60, "two-run cases with an explicit vulnerability list")
 	nPin := flag.Int("pinned", 40, "two-run cases with every vulnerable transitive package configured upgrade level none")
+	nFlip := flag.Int("devflip", 12, "two-run cases built so that a dev-only vulnerability stops being dev-only after the patch")
 	nOdd := flag.Int("odd", 20, "two-run cases with package names that need escaping in a gjson path (dots, wildcards)")
 	nCon := flag.Int("construct", 300, "synthetic ConstructPatches cases (structured)")
 	nWild := flag.Int("wild", 150, "synthetic ConstructPatches cases (duplicates, removals, odd types)")
@@ -224,6 +225,17 @@ func main() {
 		two(*nExp, "explicit", true, false, false)
 		two(*nOdd, "odd-names", false, true, false)
 		two(*nPin, "pinned-transitive", false, false, true)
+		for i := 0; i < *nFlip; i++ {
+			u, o := genDevFlip(r)
+			tr := runTwoRun(u, o, fmt.Sprintf("%s/flip%d", dir, i), 4)
+			os.RemoveAll(fmt.Sprintf("%s/flip%d", dir, i))
+			c := wrapTwoRun(tr, "dev-flip")
+			emit(kt, c)
+			if c.OK {
+				emit(kf, filterFromAnalysis(o, tr.A0))
+				emit(kg, graphFromAnalysis(o, tr.A0))
+			}
+		}
 		for i := 0; i < *nCon; i++ {
 			emit(kc, genConstruct(r, false))
 		}
